@@ -43,6 +43,15 @@ impl Code {
     }
 }
 
+#[cfg(feature = "verif")]
+impl Code {
+    /// the instruction trees as parsed and folded (`Debug` form), for comparison with a model of
+    /// the folding pass; compiled only with the cargo feature `verif`
+    pub fn verif_dump(&self) -> String {
+        format!("{:?}", self.instructions)
+    }
+}
+
 impl ReturnType for Code {
     fn return_type(&self) -> Type {
         self.instructions
